@@ -95,6 +95,8 @@ def run(rep, tier):
         rep.call(formulas.nearest_formula, rep, prog, "C11.formula")
         from . import c09
         rep.call(c09.state_fields, rep, prog, "C11.stateless")
+        from ..engines import validators
+        rep.call(validators.crop_passthrough, rep, prog, "C11.crop-passthrough")
         # the row / column indices of the copied pixel are computed without wrapping
         # (not on the 32-bit configuration: there `usize` products such as row * width are bounded
         # by the slice-length invariant of the containers, which the witness search does not
